@@ -129,6 +129,14 @@ func genC16(t *rapid.T) *C16Case {
 		m.NoSeq = true
 		m.Damage, m.DamageBy = "bodylength", by
 	}
+	if rapid.IntRange(0, 2).Draw(t, "seqLookalike") == 0 {
+		// the text 34= in a value, or a tag that ends in 34, somewhere in the message: not the MsgSeqNum
+		if rapid.Bool().Draw(t, "lookalikeAhead") {
+			m.PreSeq = append(m.PreSeq, rapid.SampledFrom([]rig.Tok{rig.F("5034", "77"), rig.F("50", "GW34=9"), rig.F("134", "77")}).Draw(t, "lookalikeHdr"))
+		} else {
+			m.Fields = append(m.Fields, rapid.SampledFrom([]rig.Tok{rig.F("134", "77"), rig.F("58", "REF34=77"), rig.F("5034", "1")}).Draw(t, "lookalikeBody"))
+		}
+	}
 	m.Note = c.Damage
 	c.BadStep = len(c.Steps)
 	add(rig.Step{Op: "in", In: m})
